@@ -118,24 +118,19 @@ Proof. vm_compute. reflexivity. Qed.
 Lemma good_sorted : forall s, reachable cur_progs true s -> st_good true true s = true.
 Proof. apply (all_reachable cur_progs true reach_sorted); [exact closed_sorted|exact init_sorted|vm_compute; reflexivity]. Qed.
 
-Lemma good_unsorted_relaxed : forall s, reachable cur_progs false s -> st_good false false s = true.
+Lemma good_unsorted : forall s, reachable cur_progs false s -> st_good true false s = true.
 Proof. apply (all_reachable cur_progs false reach_unsorted); [exact closed_unsorted|exact init_unsorted|vm_compute; reflexivity]. Qed.
 
-Lemma good_relaxed : forall sorted s, reachable cur_progs sorted s -> st_good false sorted s = true.
-Proof.
-  intros [] s H.
-  - apply (all_reachable cur_progs true reach_sorted (st_good false true));
-      [exact closed_sorted|exact init_sorted|vm_compute; reflexivity|exact H].
-  - apply good_unsorted_relaxed. exact H.
-Qed.
+Lemma good_all : forall sorted s, reachable cur_progs sorted s -> st_good true sorted s = true.
+Proof. intros [] s H; [apply good_sorted|apply good_unsorted]; exact H. Qed.
 
 Lemma never_fatal : forall sorted s, reachable cur_progs sorted s -> pr s <> PFatal.
 Proof.
-  intros sorted s H. apply good_relaxed in H. unfold st_good, st_safe in H.
+  intros sorted s H. apply good_all in H. unfold st_good, st_safe in H.
   intro E. rewrite E in H. discriminate.
 Qed.
 
-Lemma unsorted_lone_index : exists s, reachable cur_progs false s /\ negb (st_good true false s) = true.
+Lemma v2_lone_index : exists s, reachable v2_progs false s /\ negb (st_good true false s) = true.
 Proof. apply exists_reachable. vm_compute. reflexivity. Qed.
 
 (* the orders before the repairs, and deletion without the .del phase *)
@@ -150,7 +145,7 @@ Proof. apply exists_reachable. vm_compute. reflexivity. Qed.
 
 Lemma crash_state_not_fatal sorted f : crash_state cur_progs sorted f -> is_fatal f = false.
 Proof.
-  intros [s [Hr [Hf Hh]]]. apply good_relaxed in Hr. unfold st_good, st_safe in Hr.
+  intros [s [Hr [Hf Hh]]]. apply good_all in Hr. unfold st_good, st_safe in Hr.
   apply andb_true_iff in Hr as [Hr _]. unfold is_fatal. rewrite <- Hf.
   destruct (pr s); try discriminate; unfold safe in Hr; destruct (classify (files s)); try reflexivity; discriminate.
 Qed.
